@@ -158,6 +158,8 @@ func singleCoding(proto string, c int, content string, ref byte) (can bool, n in
 	return err == nil && int(actual) == c, len(parts)
 }
 
+var reusedBuilders = map[string]*protocol.BatchDataCodingEncoder{}
+
 func runBatch(c Case, tr *Tracer) {
 	proto := caseStr(c, "proto")
 	cands := intsOf(c["cands"])
@@ -194,6 +196,14 @@ func runBatch(c Case, tr *Tracer) {
 		old := runtime.GOMAXPROCS(caseInt(c, "procs"))
 		defer runtime.GOMAXPROCS(old)
 		b := protocol.NewBatchDataCodingEncoder().Protocol(protocol.Protocol(proto)).Content(content, ref)
+		reuse := caseInt(c, "t")%3 == 0
+		if reuse {
+			// one builder serves request after request: every setter is called again, the answer depends on this request only
+			if reusedBuilders[proto] == nil {
+				reusedBuilders[proto] = protocol.NewBatchDataCodingEncoder()
+			}
+			b = reusedBuilders[proto].Protocol(protocol.Protocol(proto)).Content(content, ref)
+		}
 		// the candidate slice is a prefix of a longer configured list (spare capacity behind it):
 		// Build must not write into the caller's array
 		backing := make([]datacoding.ProtocolDataCoding, 0, len(cands)+3)
@@ -208,6 +218,8 @@ func runBatch(c Case, tr *Tracer) {
 		b.DataCodings(pdc)
 		if origin >= 0 {
 			b.OriginDataCoding(toPDC(proto, origin))
+		} else if reuse {
+			b.OriginDataCoding(nil)
 		}
 		var parts [][]byte
 		var actual datacoding.ProtocolDataCoding
